@@ -144,7 +144,9 @@ func OpPoints() int64 { return opPts }
 // BeginOp resets the per-operation counter and arms the budget.
 //
 //go:norace
-func BeginOp(budget int64) { opPts = 0; limit = budget }
+func BeginOp(budget int64) { opPts = 0; limit = budget; deadPanicked = false }
+
+var deadPanicked bool // the running call has already been ended once because nobody could make progress
 
 // EndOp disarms the budget and returns the points the operation took.
 //
@@ -253,6 +255,9 @@ func InitBaton(n int) {
 	spawnQ = spawnQ[:0]
 	deadlocked = false
 	liveChildren = 0
+	for i := range rootOf {
+		rootOf[i] = 0
+	}
 	resetChans()
 	baton = true
 }
@@ -292,6 +297,21 @@ func Spawn() int {
 	spawnQ = append(spawnQ, id)
 	childSeen = true
 	liveChildren++
+	rootOf[id] = Root(cur) + 1 // 0 means: a caller
+	return id
+}
+
+// rootOf[id]: the caller client on whose behalf a goroutine of the library runs
+// (the client that executed the go statement, or that one's root); -1 for callers.
+var rootOf [MaxClients]int
+
+// Root returns the caller client a client works for (itself, if it is a caller).
+//
+//go:norace
+func Root(id int) int {
+	if id >= 0 && id < MaxClients && rootOf[id] > 0 {
+		return rootOf[id] - 1
+	}
 	return id
 }
 
@@ -336,6 +356,27 @@ func childEnded() { liveChildren-- }
 
 //go:norace
 func noteChildFault(a uintptr) { childFaulted, childFaultAddr = true, a }
+
+var (
+	childPanicked bool
+	childPanicVal interface{}
+)
+
+//go:norace
+func noteChildPanic(v interface{}) {
+	if !childPanicked {
+		childPanicked, childPanicVal = true, v
+	}
+}
+
+// TakeChildPanic reports (once) a panic that escaped from a goroutine started by the library.
+//
+//go:norace
+func TakeChildPanic() (interface{}, bool) {
+	v, ok := childPanicVal, childPanicked
+	childPanicked, childPanicVal = false, nil
+	return v, ok
+}
 
 // LiveChildren reports how many goroutines started by the library have not finished.
 //
@@ -384,9 +425,18 @@ func GoCall(id int, fn interface{}, args ...interface{}) {
 				}
 				be, ok := r.(BudgetExceeded)
 				if !ok {
-					panic(r)
+					// An unrecovered panic in a goroutine takes a real process
+					// down. Here it is recorded for the call during which it
+					// happened, and the goroutine ends.
+					noteChildPanic(r)
+					childEnded()
+					Yield(KTaskDone)
+					return
 				}
 				trace("child-budget", id, int(be.Limit))
+				if tracing {
+					syscall.Write(2, debug.Stack())
+				}
 				noteChildOverrun()
 			}
 			childEnded()
@@ -467,11 +517,16 @@ func Yield(kind uint64) {
 //
 //go:norace
 func Blocked() {
-	if baton && deadlocked && limit != 0 {
+	if baton && deadlocked && (limit != 0 || deadPanicked) {
 		// the scheduler found that no client can ever make progress: end the
-		// call the way a non-terminating call is ended
+		// call the way a non-terminating call is ended (and again, should a
+		// deferred function of the call start waiting while that panic unwinds)
 		l := limit
 		limit = 0
+		deadPanicked = true
+		if l == 0 {
+			l = 1
+		}
 		panic(BudgetExceeded{-l})
 	}
 	if !baton {
@@ -487,6 +542,18 @@ func Blocked() {
 		}
 		runtime.Gosched()
 		return
+	}
+	if tracing {
+		for sk := 1; sk <= 3; sk++ {
+			if _, file, line, ok := runtime.Caller(sk); ok {
+				n := len(file)
+				if n > 24 {
+					file = file[n-24:]
+				}
+				syscall.Write(2, []byte("  blocked at "+file+":"))
+				trace("", line, cur)
+			}
+		}
 	}
 	Yield(KBlocked)
 }
@@ -679,6 +746,7 @@ func WaitRecv(ch interface{}) {
 	}
 	SyncPoint()
 	for v.Len() == 0 && !chanClosed(p) {
+		trace("waitrecv-empty ptrlo/ptrhi", int(p&0xffffff), int(p>>24))
 		Blocked()
 	}
 }
@@ -699,6 +767,10 @@ func Closing(ch interface{}) {
 func SelectCheck(chs ...interface{}) {
 	for _, ch := range chs {
 		v := reflect.ValueOf(ch)
+		if tracing && v.Kind() == reflect.Chan && !v.IsNil() {
+			trace("select-chan len/cap", v.Len(), v.Cap())
+			trace("select-chan ptr", int(v.Pointer()&0xffffff), int(v.Pointer()>>24))
+		}
 		if v.Kind() == reflect.Chan && !v.IsNil() && v.Cap() == 0 && BatonOn() {
 			fatal("zzsimrt: the library uses an unbuffered channel in a select; the simulator must be extended before it can judge this tree")
 		}
